@@ -117,18 +117,20 @@ type upShape struct {
 	Sz      int    `json:"sz"`
 	Hop     bool   `json:"hop"`
 	Cookies bool   `json:"cookies"`
+	Pragma  bool   `json:"pragma"`
 }
 
 type script struct {
-	id      string
-	up      upShape
-	body    []byte // what the client must end up with if nothing is undone (i.e. the entity as sent, maybe gzip)
-	plain   []byte
-	gate    chan struct{} // closed by the client once part one has arrived
-	gated   bool
-	stalled bool
-	req     *wireMsg
-	done    chan struct{}
+	id       string
+	up       upShape
+	body     []byte // what the client must end up with if nothing is undone (i.e. the entity as sent, maybe gzip)
+	plain    []byte
+	gate     chan struct{} // closed by the client once part one has arrived
+	gated    bool
+	stalled  bool
+	req      *wireMsg
+	sentHead string // the head as the origin wrote it
+	done     chan struct{}
 }
 
 type scriptHop struct {
@@ -217,6 +219,10 @@ func (sh *scriptHop) respond(p *peer, connIdx, reqIdx int, req *wireMsg, w io.Wr
 	if u.Cookies {
 		head.WriteString("Set-Cookie: a=1; Path=/\r\nSet-Cookie: b=2; Path=/\r\n")
 	}
+	if u.Pragma {
+		// an HTTP/1.0-style "do not cache", and no Cache-Control
+		head.WriteString("Pragma: no-cache\r\nExpires: Thu, 01 Jan 2032 00:00:00 GMT\r\n")
+	}
 	if u.Hop {
 		head.WriteString("Keep-Alive: timeout=3\r\nConnection: X-Resp-Hop\r\nX-Resp-Hop: 1\r\nProxy-Authenticate: Basic realm=\"up\"\r\n")
 	}
@@ -244,6 +250,7 @@ func (sh *scriptHop) respond(p *peer, connIdx, reqIdx int, req *wireMsg, w io.Wr
 		closeAfter = true // a plain HTTP/1.0 origin: no keep-alive
 	}
 	head.WriteString("\r\n")
+	s.sentHead = head.String()
 	if noBody {
 		w.Write(head.Bytes())
 		return closeAfter
@@ -1036,6 +1043,37 @@ func (he *h1Env) sequence(si int, seq []h1Exchange) map[string]any {
 			fail(k, "Content-Encoding lost although the body is still compressed")
 		case ex.Undone && ce != "":
 			fail(k, "Content-Encoding kept although the body was decompressed")
+		}
+		// the header set as a whole: every end-to-end field the origin sent, with its values in order, and no field
+		// the origin never sent (fields of the framing and of this hop aside; a proxy may add Date and Via)
+		{
+			skip := map[string]bool{"connection": true, "keep-alive": true, "proxy-authenticate": true, "x-resp-hop": true,
+				"transfer-encoding": true, "trailer": true, "content-length": true, "content-encoding": true, "date": true, "via": true}
+			sent := map[string][]string{}
+			for _, l := range strings.Split(sc.sentHead, "\r\n")[1:] {
+				if n, v, ok := strings.Cut(l, ":"); ok {
+					sent[strings.ToLower(n)] = append(sent[strings.ToLower(n)], strings.TrimSpace(v))
+				}
+			}
+			seen := map[string]bool{}
+			for _, f := range got.Fields {
+				n := strings.ToLower(f.N)
+				if skip[n] || seen[n] {
+					continue
+				}
+				seen[n] = true
+				if _, ok := sent[n]; !ok {
+					fail(k, fmt.Sprintf("field %s: the client got %q, the origin sent no such field", n, got.get(n)))
+				}
+			}
+			for n, vs := range sent {
+				if skip[n] {
+					continue
+				}
+				if g := got.get(n); strings.Join(g, "\x00") != strings.Join(vs, "\x00") || len(g) != len(vs) {
+					fail(k, fmt.Sprintf("field %s: the client got %q, the origin sent %q", n, g, vs))
+				}
+			}
 		}
 		if ex.Up.Cookies {
 			if c := got.get("Set-Cookie"); len(c) != 2 || c[0] != "a=1; Path=/" || c[1] != "b=2; Path=/" {
